@@ -236,3 +236,16 @@ func stackBuf() []byte {
 	n := runtime.Stack(buf, false)
 	return buf[:n]
 }
+
+// SampleOf writes a scenario out for the evidence file when its executor did not
+// produce a sample of its own for it.
+func SampleOf(sc *wire.Scenario, res *wire.Result) any {
+	extra := map[string]any{"verdict": res.Verdict, "sessions": res.Sessions, "scheduler_steps": res.Steps}
+	if len(sc.X) > 0 && len(sc.X) < 600 {
+		extra["parameters"] = sc.X
+	}
+	if len(sc.Plans) > 0 {
+		extra["schedules"] = len(sc.Plans)
+	}
+	return sample(sc, extra)
+}
